@@ -90,6 +90,27 @@ pub fn eval_c02(buf: &[u8]) -> Sigs {
             }
         }
     }
+    // the by-reader twin of the entry point, handed a reader that stands inside a longer stream:
+    // the same verdict, the same format variant and the same checksum
+    if out.is_empty() && !matches!(exp, Expect::DontCare) && !buf.is_empty() {
+        let off = 1 + buf[buf.len() - 1] as usize % 15;
+        let mut stream = vec![0xa5u8; off];
+        stream.extend_from_slice(buf);
+        let twin = std::panic::catch_unwind(|| {
+            let mut cur = std::io::Cursor::new(&stream[..]);
+            cur.set_position(off as u64);
+            adsb_deku::Frame::from_reader(&mut cur).ok().map(|f| (df_variant_name(&f).to_string(), f.crc))
+        });
+        let here = match &dec {
+            Decoded::Ok(f) => Some((df_variant_name(f).to_string(), f.crc)),
+            _ => None,
+        };
+        match twin {
+            Err(_) => out.push((format!("C02/panic/{class}"), format!("from_reader (reader positioned {off} bytes into a stream) panicked: {}", last_panic()))),
+            Ok(t) if t != here => out.push((format!("C02/reader_twin/{class}"), format!("from_bytes gives {here:?}, from_reader on a reader positioned {off} bytes into a stream gives {t:?} (variant, checksum)"))),
+            _ => {}
+        }
+    }
     out
 }
 
@@ -133,6 +154,10 @@ pub fn run_c02(ctx: &Ctx) -> ! {
                         f.extend_from_slice(&t);
                         f
                     };
+                    // (two buffers per cell are uniform: all bits clear / all bits set besides the format code)
+                    if j == 2 || j == 3 {
+                        b = vec![if j == 2 { 0x00 } else { 0xff }; 32];
+                    }
                     set(&mut b, 1, 5, df as u64);
                     b.truncate(len);
                     if boundary(&b) {
